@@ -21,6 +21,7 @@ import (
 
 	"github.com/nspcc-dev/neofs-node/pkg/local_object_storage/blobstor/common"
 	"github.com/nspcc-dev/neofs-node/pkg/local_object_storage/blobstor/fstree"
+	"github.com/nspcc-dev/neofs-sdk-go/checksum"
 	cid "github.com/nspcc-dev/neofs-sdk-go/container/id"
 	"github.com/nspcc-dev/neofs-sdk-go/object"
 	oid "github.com/nspcc-dev/neofs-sdk-go/object/id"
@@ -71,6 +72,8 @@ func mkObj(tag uint64, i int, payload int) tobj {
 		pl[k] = byte(int(h[k%32]) + k)
 	}
 	o.SetPayload(pl)
+	o.SetPayloadSize(uint64(len(pl)))
+	o.SetPayloadChecksum(checksum.NewSHA256(sha256.Sum256(pl)))
 	return tobj{addr: oid.NewAddress(c, id), obj: o, data: o.Marshal()}
 }
 
